@@ -9,6 +9,7 @@ so a changed guard or argument changes the interpretation and breaks exactly the
 (an unknown disjunct rejects, an unknown call yields `none`).
 -/
 import VaxisModel.Model.Window
+import VaxisModel.Model.App
 
 namespace VaxisModel.Props.C11Body
 open VaxisModel.Model.Window VaxisModel.Gen.WindowFacts
@@ -146,5 +147,104 @@ theorem screen_put_body_eq_model (s : Screen) (col row : Int) (c : Cell) (st : N
     have : (["P0<0", "P0>=R.cols", "P1<0", "P1>=R.rows"].any (rejS s col row)) = false := by
       cases h : (["P0<0", "P0>=R.cols", "P1<0", "P1>=R.rows"].any (rejS s col row)) <;> simp_all
     simp [this, Screen.setCell, Screen.setStyle, hgd]
+
+/-! ### `Window.ShowCursor` and `Window.Origin`, run from their regenerated skeletons -/
+
+/-- `col += win.Column` / `row += win.Row` (ShowCursor) and `col += w.Column` / `row += w.Row` (Origin). -/
+def stepAssign (win : Win) (a : String) (cr : Int × Int) : Option (Int × Int) :=
+  if a = "col+=win.Column" ∨ a = "col+=w.Column" then some (cr.1 + win.col, cr.2)
+  else if a = "row+=win.Row" ∨ a = "row+=w.Row" then some (cr.1, cr.2 + win.row)
+  else none
+
+/-- (depth, kind) of every line. -/
+def shapeOf (sk : List (Nat × String × String)) : List (Nat × String) := sk.map fun l => (l.1, l.2.1)
+
+/-- `Window.ShowCursor` executed from the texts of its skeleton: the two offset additions, then
+    `Vx.ShowCursor` at the root (`win.Parent == nil`) or the parent's `ShowCursor` with the translated position. -/
+def showCursorGo : List String → Win → Int → Int → Option (Int × Int)
+  | [a1, a2, g, c1, r, c2], win, col, row =>
+    match (stepAssign win a1 (col, row)).bind (stepAssign win a2) with
+    | none => none
+    | some cr =>
+      if g = "win.Parent==nil" ∧ c1 = "win.Vx.ShowCursor(col,row,style)" ∧ r = "" ∧ c2 = "win.Parent.ShowCursor(col,row,style)" then
+        match win with
+        | .root .. => some cr
+        | .child _ _ _ _ p => showCursorGo [a1, a2, g, c1, r, c2] p cr.1 cr.2
+      else none
+  | _, _, _, _ => none
+
+def showCursorI (sk : List (Nat × String × String)) (win : Win) (col row : Int) : Option (Int × Int) :=
+  if shapeOf sk = [(0, "assign"), (0, "assign"), (0, "if"), (1, "call"), (1, "return"), (0, "call")] then
+    showCursorGo (sk.map (·.2.2)) win col row
+  else none
+
+theorem showCursorGo_eq (win : Win) : ∀ (col row : Int),
+    showCursorGo ["col+=win.Column", "row+=win.Row", "win.Parent==nil", "win.Vx.ShowCursor(col,row,style)", "",
+      "win.Parent.ShowCursor(col,row,style)"] win col row = some (VaxisModel.Model.App.cursorPos win col row) := by
+  induction win with
+  | root c r w h => intro col row; rw [showCursorGo]; simp [stepAssign, VaxisModel.Model.App.cursorPos, Win.col, Win.row]
+  | child c r w h p ih =>
+    intro col row
+    have := ih (col + c) (row + r)
+    rw [showCursorGo]
+    simp [stepAssign, VaxisModel.Model.App.cursorPos, Win.col, Win.row]
+    exact this
+
+/-- **showCursor_body_eq_model** (C11): `Window.ShowCursor` through any chain = `Model.App.cursorPos`
+    (origin + offset, no clipping), as the interpretation of the skeleton extracted on this run. -/
+theorem showCursor_body_eq_model (win : Win) (col row : Int) :
+    showCursorI skShowCursor win col row = some (VaxisModel.Model.App.cursorPos win col row) := by
+  have h1 : shapeOf skShowCursor = [(0, "assign"), (0, "assign"), (0, "if"), (1, "call"), (1, "return"), (0, "call")] := by
+    decide +kernel
+  have h2 : skShowCursor.map (·.2.2) = ["col+=win.Column", "row+=win.Row", "win.Parent==nil", "win.Vx.ShowCursor(col,row,style)", "",
+      "win.Parent.ShowCursor(col,row,style)"] := by decide +kernel
+  unfold showCursorI
+  rw [if_pos h1, h2]
+  exact showCursorGo_eq win col row
+
+/-- `Window.Origin` executed from the texts of its skeleton: `w := win; col := 0; row := 0; for ;; { col +=
+    w.Column; row += w.Row; if w.Parent == nil { return col, row }; w = *w.Parent }`. -/
+def originGo : List String → Win → Int → Int → Option (Int × Int)
+  | [i1, i2, i3, f, a1, a2, g, r, nx], w, col, row =>
+    match (stepAssign w a1 (col, row)).bind (stepAssign w a2) with
+    | none => none
+    | some cr =>
+      if i1 = "w:=win" ∧ i2 = "col:=0" ∧ i3 = "row:=0" ∧ f = ";;" ∧ g = "w.Parent==nil" ∧ r = "col,row" ∧ nx = "w=*w.Parent" then
+        match w with
+        | .root .. => some cr
+        | .child _ _ _ _ p => originGo [i1, i2, i3, f, a1, a2, g, r, nx] p cr.1 cr.2
+      else none
+  | _, _, _, _ => none
+
+def originI (sk : List (Nat × String × String)) (win : Win) : Option (Int × Int) :=
+  if shapeOf sk = [(0, "assign"), (0, "assign"), (0, "assign"), (0, "for"), (1, "assign"), (1, "assign"), (1, "if"), (2, "return"),
+      (1, "assign")] then
+    originGo (sk.map (·.2.2)) win 0 0
+  else none
+
+theorem originGo_acc (win : Win) : ∀ (col row : Int),
+    originGo ["w:=win", "col:=0", "row:=0", ";;", "col+=w.Column", "row+=w.Row", "w.Parent==nil", "col,row", "w=*w.Parent"] win col row =
+      some (win.origin.1 + col, win.origin.2 + row) := by
+  induction win with
+  | root c r w h => intro col row; rw [originGo]; simp [stepAssign, Win.origin, Win.col, Win.row, Int.add_comm]
+  | child c r w h p ih =>
+    intro col row
+    have := ih (col + c) (row + r)
+    rw [originGo]
+    simp [stepAssign, Win.origin, Win.col, Win.row]
+    rw [this]
+    simp only [Option.some.injEq, Prod.mk.injEq]
+    constructor <;> omega
+
+/-- **origin_body_eq_model**: `Window.Origin()` = the sum of the offsets along the parent chain (`Win.origin`),
+    as the interpretation of the skeleton extracted on this run (the loop walks `w = *w.Parent`). -/
+theorem origin_body_eq_model (win : Win) : originI skOrigin win = some win.origin := by
+  have h1 : shapeOf skOrigin = [(0, "assign"), (0, "assign"), (0, "assign"), (0, "for"), (1, "assign"), (1, "assign"), (1, "if"),
+      (2, "return"), (1, "assign")] := by decide +kernel
+  have h2 : skOrigin.map (·.2.2) = ["w:=win", "col:=0", "row:=0", ";;", "col+=w.Column", "row+=w.Row", "w.Parent==nil", "col,row",
+      "w=*w.Parent"] := by decide +kernel
+  unfold originI
+  rw [if_pos h1, h2, originGo_acc win 0 0]
+  simp
 
 end VaxisModel.Props.C11Body
